@@ -521,8 +521,10 @@ func TestVerifToFileChild(t *testing.T) {
 	}
 	say := func(op string) { fmt.Fprintf(res, "OP %s\n", op) }
 	ans := func(a string) { fmt.Fprintf(res, "ANS %s\n", a) }
-	say(fmt.Sprintf("tf conf %d %d %d %d %d %d %d %d", b(sc.GZIP), sc.RotateSize, sc.RotateInterval, b(sc.WorkDir),
-		b(sc.SkipEmpty), sc.MaxInFlight, b(hasRev), b(vfE8ProbeCloseClears())))
+	// c19a: probes — 9th/10th model parameter: router() writes a record with one Write (fix F46), updateFile() seals a
+	// torn tail before appending (fix F47); both probed on the real code (harness/e8/tofile_lines_test.go)
+	say(fmt.Sprintf("tf conf %d %d %d %d %d %d %d %d %d %d", b(sc.GZIP), sc.RotateSize, sc.RotateInterval, b(sc.WorkDir),
+		b(sc.SkipEmpty), sc.MaxInFlight, b(hasRev), b(vfE8ProbeCloseClears()), b(vfE8ProbeOneWrite()), b(vfE8ProbeSealsTail())))
 	ans("ok")
 	start := time.Now()
 	for _, p := range sc.Pre {
